@@ -300,38 +300,32 @@ pub fn run(spec: &RunSpec) -> RunLog {
                         }
                     }
                     Cmd::Quiesce => {
+                        // quiescent = every chain that has started is blocked at the PAUSED schedule point or has left
+                        // its loop (a poll of progress() cannot tell an idle chain from one in the middle of a slow draw)
                         let t0 = Instant::now();
-                        let key = |p: &[nuts_rs::ChainProgress]| p.iter().map(|c| (c.finished_draws, c.total_num_steps, c.started)).collect::<Vec<_>>();
-                        let mut last: Option<Vec<(usize, usize, bool)>> = None;
-                        let mut stable = 0;
                         loop {
-                            match s.progress() {
-                                Err(e) => break (CallOutcome::Err(format!("{e:#}")), None, false),
-                                Ok(p) => {
-                                    let k = key(&p);
-                                    if last.as_ref() == Some(&k) { stable += 1 } else { stable = 0 }
-                                    last = Some(k);
-                                    if stable >= 3 {
-                                        let snap = shared.snapshot();
-                                        let p2 = match s.progress() {
-                                            Ok(p2) => p2,
-                                            Err(e) => break (CallOutcome::Err(format!("{e:#}")), None, false),
-                                        };
-                                        if key(&p2) != key(&p) {
-                                            stable = 0;
-                                            continue;
-                                        }
+                            let pts = sched::chain_points();
+                            let idle = pts.values().all(|p| *p == sched::pt::CHAIN_PAUSED || *p == sched::pt::CHAIN_EXIT);
+                            if idle {
+                                let before = s.progress();
+                                let snap = shared.snapshot();
+                                let pts2 = sched::chain_points();
+                                let still = pts2 == pts;
+                                match before {
+                                    Err(e) => break (CallOutcome::Err(format!("{e:#}")), None, false),
+                                    Ok(p) if still => {
                                         let counts = snap.iter().map(|(c, v)| {
                                             (*c, (v.len(), v.iter().filter(|r| r.diverging && !r.tuning).count(), v.iter().map(|r| r.num_steps as usize).sum(), v.last().map(|r| r.clock).unwrap_or(0)))
                                         }).collect();
                                         break (CallOutcome::Quiesced(p.iter().map(lite).collect(), counts), None, false);
                                     }
-                                    if t0.elapsed() > Duration::from_secs(5) {
-                                        break (CallOutcome::Timeout, None, false);
-                                    }
-                                    std::thread::sleep(Duration::from_millis(1));
+                                    Ok(_) => {}
                                 }
                             }
+                            if t0.elapsed() > Duration::from_secs(20) {
+                                break (CallOutcome::Timeout, None, false);
+                            }
+                            std::thread::sleep(Duration::from_micros(300));
                         }
                     }
                     Cmd::Wait(_) | Cmd::Abort => (CallOutcome::Ok, None, true),
